@@ -166,7 +166,8 @@ class Sim:
             if "default_label" in lf and k in ("disp", "exch"):
                 mv.default_label = lf["default_label"]
             mv.max_attempts = p.get("max_attempts", 2)
-            mv.check_move = self.check
+            if p.get("criteria") != "shipped":
+                mv.check_move = self.check
             self.leaves.append(mv)
         ens = p["ensemble"]
         kw = dict(temperature=p.get("T", 300.0), seed=p["seed"], max_cycles=p.get("max_cycles", 2), logfile=p.get("logfile"))
@@ -196,6 +197,13 @@ class Sim:
                         real = ct()
                         break
             crit = Scripted(self.verdicts if p.get("criteria") != "real" else [], hook=self.at_evaluate, real=real)   # "both": the real criteria is evaluated, the scripted verdict returned
+            if p.get("criteria") == "shipped":
+                # the shipped criteria object itself (serialisable): the default one for the kind of the first leaf
+                crit = None
+                for mt, ct in mc.default_criteria.items():
+                    if isinstance(leaf_objects(mv)[0], mt):
+                        crit = ct()
+                        break
             mc.add_move(mv, criteria=crit, name=ent["name"], interval=ent.get("interval", 1), probability=ent.get("probability", 1.0),
                         minimum_count=ent.get("minimum_count", 0))
             self.table.append((ent["name"], mv))
